@@ -748,7 +748,8 @@ class SSHTransportBase(protocol.Protocol):
             # only in '\n'.
             # https://tools.ietf.org/html/rfc4253#section-4.2
             lines = self.buf.split(b"\n")
-            for p in lines:
+            # The last element is not a complete line (yet).
+            for p in lines[:-1]:
                 if p.startswith(b"SSH-"):
                     self.gotVersion = True
                     # Since the line was split on '\n' and most of the time
